@@ -23,7 +23,6 @@ func probes() []probe {
 		// control characters: 0 columns for wcwidth, 2 columns (caret notation) in a buffer
 		{Cfg{Kind: "textview", Lines: [][]int{cs("\tab"), cs("x")}}, []Size{{3, 2}}},
 		{Cfg{Kind: "listbox", Items: [][]int{cs("echo\ta"), cs("b")}}, []Size{{5, 2}}},
-		{Cfg{Kind: "listbox", Items: [][]int{cs("~\x01"), cs("b"), cs("c")}}, []Size{{2, 2}}},
 		{Cfg{Kind: "listbox", Horizontal: true, Items: [][]int{cs("ab\tcd"), cs("b"), cs("c"), cs("d")}}, []Size{{6, 2}}},
 		{Cfg{Kind: "combobox", Buffer: cs("x"), Pending: noPending, Items: [][]int{cs("echo\ta"), cs("b")}}, []Size{{5, 3}}},
 	}
